@@ -404,14 +404,14 @@ def C05():
 
 
 def C07():
-    from contracts.processor import PaginationBorders
+    from contracts.processor import PaginationBorders, ProcessPage
     from contracts.replay_docs import replayer as D
     from contracts.headers import RenderColumnHeaders
     from contracts.attributes import UpdateCell, UpdateRow, ToList, Iloc, LEMMAS
     from contracts.emitters import CellAsRtf, BorderAsRtf
     from contracts.placement import ShouldShowElement
     return Property(
-        "C07", units=[ContractUnit(PaginationBorders()), ContractUnit(UpdateCell()), ContractUnit(UpdateRow()), ContractUnit(ToList()), ContractUnit(Iloc()),
+        "C07", units=[ContractUnit(PaginationBorders()), ContractUnit(ProcessPage()), ContractUnit(UpdateCell()), ContractUnit(UpdateRow()), ContractUnit(ToList()), ContractUnit(Iloc()),
                       ContractUnit(CellAsRtf()), ContractUnit(BorderAsRtf()), ContractUnit(ShouldShowElement()), _render_unit(quick=("no_groups",), thorough=()), _multi_section_unit(), ContractUnit(RenderColumnHeaders())]
         + _note_units() + LEMMAS,
         level="proof",
@@ -429,20 +429,20 @@ def C07():
 def C09():
     from contracts.attributes import Iloc, ToList, UpdateCell, EncodeRows, ToNestedList, LEMMAS
     from contracts.renderer import RenderBody
-    from contracts.processor import PaginationBorders
+    from contracts.processor import PaginationBorders, ProcessPage
     from contracts.emitters import CellAsRtf, BorderAsRtf, TextFormatting, ParagraphFormatting
     from contracts import replayers as R
     from contracts.replay_docs import replayer as D
     return Property(
         "C09", units=[ContractUnit(Iloc()), ContractUnit(ToList()), ContractUnit(UpdateCell()), ContractUnit(ToNestedList()), ContractUnit(EncodeRows()), ContractUnit(RenderBody()),
-                      ContractUnit(PaginationBorders()), ContractUnit(CellAsRtf()), ContractUnit(BorderAsRtf()), ContractUnit(TextFormatting()),
+                      ContractUnit(PaginationBorders()), ContractUnit(ProcessPage()), ContractUnit(CellAsRtf()), ContractUnit(BorderAsRtf()), ContractUnit(TextFormatting()),
                       ContractUnit(ParagraphFormatting()), _prepare_unit(), _section_unit()] + LEMMAS + _strategy_units(),
         level="proof",
         technique="binding obligations at every constructor call of the real TableAttributes._encode: each formatting field of cell (i, j) is "
                   "attr.iloc(i + row_offset, j); BroadcastValue.iloc = value[r mod R][c mod C]; _render_body passes the page-relative offset; emitters emit every field",
         trusted_base=[SOLVERS, ENGINE, POLARS],
         assumptions=["the attribute column slicing after page_by/subline_by removal is proved for representative fields of type(attrs).model_fields (unit PrepareFrame)",
-                     "PaginationBorders uses a representative-field abstraction of type(page_attrs).model_fields (two border matrices + one generic matrix attribute)"],
+                     "PaginationBorders models type(page_attrs).model_fields by the two border matrices, the one-row border_first / border_last and one generic matrix attribute enumerated under a symbolic name (any nested-list field of the real class)"],
         replayers={"attributes.py::BroadcastValue": R.replay_broadcast, "encoding/renderer.py::PageRenderer._render_body": D("row_offset"),
                    "attributes.py::TableAttributes._encode": D("row_offset"), "attributes.py::TableAttributes._encode#C09.border": D("border_widths"), "services/encoding_service.py::": D("row_offset"), "pagination/": D("row_offset")}, design_ref="4/C09, A5-A6")
 
